@@ -14,6 +14,11 @@ FLAGS = {"ET": ("battery", "battery2", "meter_ext2", "meter_ext", "mppt", "eco_v
          "DT": ("dt_meter", "dt_meter_info")}
 
 
+# registers that only the named optional block delivers (a sensor at such an address has no source once the block is refused)
+REGIONS = {"battery": (37000, 37125), "battery2": (39000, 39125), "mppt": (35301, 35426), "meter_ext2": (36058, 36125),
+           "meter_ext": (36045, 36058), "dt_meter": (30195, 30320)}
+
+
 class KeysHarness(Harness):
     def __init__(self, cfg):
         self.cfg = cfg
@@ -24,11 +29,15 @@ class KeysHarness(Harness):
         fam = self.cfg["family"]
         blocks = models.ET_BLOCKS if fam == "ET" else models.DT_BLOCKS
         call = [0]
+        refused_seen = set()
 
         def refuse(addr, count):
             for n, (a, c) in blocks.items():
                 if a == addr and (c is None or c == count):
-                    return flag(n)
+                    r = flag(n)
+                    if r:
+                        refused_seen.add(n)
+                    return r
             return False
 
         def default(addr):
@@ -43,7 +52,8 @@ class KeysHarness(Harness):
             fake.regs.pop(35184, None)
             try:
                 res = drive(inv.read_runtime_data())
-                results.append(("ok", set(res.keys()), {s.id_ for s in inv.sensors()}))
+                results.append(("ok", set(res.keys()), {s.id_ for s in inv.sensors()},
+                                sorted((s.id_, s.offset) for s in inv.sensors()), sorted(refused_seen)))
             except M.exceptions.RequestRejectedException as e:
                 results.append(("rejected", str(getattr(e, "message", "")), None))
         return results
@@ -58,6 +68,13 @@ class KeysHarness(Harness):
             elif r[1] != r[2]:
                 d = sorted(r[1] ^ r[2])
                 return f"call {i + 1}: keys differ from sensors(): {d[:6]}"
+            else:
+                # refused blocks disappear: no offered sensor lives at a register that only a refused block delivers
+                for n in r[4]:
+                    lo, hi = REGIONS.get(n, (0, 0))
+                    left = [sid for sid, off in r[3] if lo <= off < hi and sid in r[1]]
+                    if left:
+                        return f"call {i + 1}: refused block {n} still offered: {left[:4]}"
         return None
 
     def symbolic(self, ex):
@@ -94,7 +111,8 @@ class KeysHarness(Harness):
         refused = sorted(k[7:] for k, val in inputs.items() if k.startswith("refuse_") and val)
         kind = None
         if v:
-            kind = "keys differ from sensors()" if "keys differ" in v else "no success by the second call"
+            kind = "keys differ from sensors()" if "keys differ" in v else "a refused block is still offered" if "still offered" in v \
+                else "no success by the second call"
         return {"outcome": "/".join(r[0] for r in results), "violation": f"{tag}: {kind}" if v else None,
                 "observed": f"refused={refused} battery={[inputs.get(f'battery_mode_{i}', 0) for i in range(3)]} -> {v}"}
 
